@@ -53,6 +53,8 @@ SCEN = {
     "hrr": dict(hrr=True),
     "srp": dict(max="tls12", srp=True),
     "anon": dict(max="tls12", anon=True),
+    "tls12-tickets": dict(max="tls12", tickets=True),
+    "tls10-tickets": dict(max="tls10", tickets=True, kx=["dhe_rsa"]),
     "resume-id": dict(max="tls12", resume="id"),
     "resume-ticket": dict(max="tls12", resume="ticket"),
     "resume-psk": dict(resume="psk"),
@@ -82,7 +84,7 @@ def build(name):
         ckw["eccCurves"] = ["x25519", "secp256r1"]
         skw["eccCurves"] = ["secp256r1", "secp384r1"]
         skw["keyShares"] = ["secp256r1"]
-    if f.get("resume") in ("ticket", "psk"):
+    if f.get("resume") in ("ticket", "psk") or f.get("tickets"):
         skw["ticketKeys"] = [bytearray(b"K" * 32)]
     client = {"settings": sc.mk_settings(**ckw)}
     server = {"settings": sc.mk_settings(**skw)}
